@@ -104,6 +104,8 @@ type (
 	MyBool  bool
 	IntSl   []int
 	StrIntM map[string]int
+	KStr    string // named key types
+	KInt    int16
 )
 
 // Hdr is a named map with methods whose names can collide with keys (like http.Header).
@@ -207,6 +209,11 @@ func init() {
 	reg("map[int]int", map[int]int(nil))
 	reg("StrIntM", StrIntM(nil))
 	reg("Hdr", Hdr(nil))
+	reg("map[KStr]int", map[KStr]int(nil))
+	reg("map[KInt]string", map[KInt]string(nil))
+	reg("map[KStr]MyStr", map[KStr]MyStr(nil))
+	reg("map[string]MyInt", map[string]MyInt(nil))
+	reg("[]MyInt", []MyInt(nil))
 	reg("S", S{})
 	reg("*S", (*S)(nil))
 	reg("Inner", Inner{})
